@@ -11,6 +11,21 @@ CHECKS = {
         note="Trusted: Lean kernel + [propext, Classical.choice, Quot.sound]; tools/vmtrans.py (translator) and the macro-text pins; Model/VmPrelude.lean; hand-written loader model tied by correspondence; not yet proved: that every loader-accepted byte string satisfies run_eq_spec's 'specification defined' premise (load_defined) - decided by correspondence; whole-library equality of the two builds on shaping is covered by the dump checks, not here.",
         technique="Lean 4 simulation proof over opcode bodies regenerated from the C++ source + differential execution on both interpreter builds",
         ref="§6 C07"),
+    "C03": dict(
+        text="Proof (Lean 4 kernel), partial: the segment is modelled as a heap of slot records linked by next/prev/parent/child/sibling indices with a free list; action_stream_wf - for EVERY rule-action program (any instruction list over next, copy_next, insert, delete, put_copy, assoc, temp_copy, attr_set(_slot) and the 34 scalar opcodes, any data bytes, any outcome: finished, died, slot offset out of bounds) followed by SlotMap::collectGarbage/freeSlot, a well-formed doubly linked stream stays a well-formed doubly linked stream whose length is the glyph count; stream_walk - hence following next from first visits exactly numGlyphs distinct slots, ends at last, and prev is the exact inverse. Not covered by a theorem: reverseSlots, bidi, linkClusters, finiteness of positions, glyph-id range, index permutation - these clauses are decided on the implementation's output only. Model tied to the code by running random loader-accepted action programs on the real Segment/SlotMap/Machine against the model (heap dumps must be equal), plus the public-API predicate on synthesised fonts with random rule sets and on the shipped fonts.",
+        note="Trusted: Lean kernel + [propext, Classical.choice, Quot.sound]; hand-written Model/Seg.lean, Model/Action.lean tied by correspondence; the matcher's guarantee that the slot map's current cell holds a stream slot is a hypothesis of the theorem; tools/fontsynth.py, tools/heapgen.py.",
+        technique="Lean 4 invariant proof (induction over all opcode sequences) on a hand-written heap model + differential execution against the real engine + public-API predicate on synthesised fonts",
+        ref="§6 C03/C04/C05"),
+    "C04": dict(
+        text="Proof (Lean 4 kernel), partial: the attachment primitives (child, sibling, removeChild, freeSlot's detach loop, setAttr(attach.to), delete_'s detach) are modelled pointer assignment by pointer assignment; proved: they write only parent/child/sibling (frame theorems, so they can never damage the stream or the character association), and attach refuses itself, its current parent, temporary copies and deleted slots. The forest invariant itself (parent chains end, child chains enumerate exactly the attached slots, no pointer leaves the stream) is NOT yet a theorem: it is decided by the correspondence of the heap model with the real engine on random action programs and by the predicate on the implementation's dumps (component level and public API, incl. the base chain after linkClusters).",
+        note="Trusted: Lean kernel + [propext, Classical.choice, Quot.sound]; hand-written Model/Seg.lean tied by correspondence; the deciding part for the forest clauses is differential/predicate checking, labelled as such.",
+        technique="Lean 4 frame/guard theorems on a hand-written heap model + differential execution against the real engine + forest predicate on heap dumps and public-API dumps",
+        ref="§6 C03/C04/C05"),
+    "C05": dict(
+        text="Proof (Lean 4 kernel), partial: action_assoc_in_range - for EVERY rule-action program and its garbage collection every slot's before/after/original stays a character index in [0,n) (insert and assoc only copy association values of existing slots); char-info count, order and strictly increasing bases are the C12 theorems about process_utf_data. Segment::associateChars is modelled and tied by correspondence; its coverage clause and the char-info ranges are decided on the implementation's output (component: arbitrary in-range slot associations; public API: synthesised fonts, shipped fonts). Known finding D-9 (coverage lost when a positioning pass contains ASSOC/PUT_COPY) is reported as KNOWN-FINDING.",
+        note="Trusted: Lean kernel + [propext, Classical.choice, Quot.sound]; hand-written Model/Seg.lean, Model/Action.lean, Model/Assoc.lean tied by correspondence; tools/fontsynth.py.",
+        technique="Lean 4 invariant proof over all opcode sequences + differential execution of associateChars and action programs + public-API predicate on synthesised fonts",
+        ref="§6 C03/C04/C05"),
     "C11": dict(
         text="Proof (Lean 4 kernel), for all code-unit strings in all three encodings: gr_count_unicode_characters' model never faults on [begin,end) and equals the Unicode specification's scan (Table 3-7/D91/D90) - exact count without error on well-formed text, error reported on ill-formed text, error pointer inside the buffer, count <= well-formed characters before the first ill-formed sequence; NUL-terminated branch never reads past a NUL; get/put inverse on all scalar values; ill-formed sequences swallow only trailing units (resync); the three encodings of a scalar list read back as the same scalars. Decoder tables, limits and toolong thresholds are REGENERATED from UtfCodec.h/.cpp. Model tied to the code by differential execution under ASan: every UTF-8 string of <=3 bytes (exhaustive, 16.8M), boundary-structured longer strings, UTF-16/32 boundary products, gr_make_seg char-infos.",
         note="Trusted: Lean kernel + [propext, Classical.choice, Quot.sound]; extractor for Gen.Utf; hand-written Model/Utf.lean tied by finite differential runs; Spec/Utf.lean validated against Python's strict codecs through the predicate on implementation outputs. Whole-segment equality across encodings is reduced to equality of the decoded scalar list.",
